@@ -508,7 +508,7 @@ func (w *Worktree) Reset(opts *ResetOptions) error {
 	}
 
 	if opts.Mode == HardReset || opts.Mode == KeepReset {
-		if err := w.resetWorktreeToTree(cfg, prevTree, t, opts.Files); err != nil {
+		if err := w.resetWorktreeToTree(cfg, prevTree, t, opts.Files, opts.Mode == KeepReset); err != nil {
 			return err
 		}
 	}
@@ -825,7 +825,7 @@ func (w *Worktree) checkUntrackedOverwrite(fromTree, toTree *object.Tree, files 
 //     file with SkipWorktree=true must not exist in the worktree.
 //
 // files optionally restricts the operation to a specific subset of paths.
-func (w *Worktree) resetWorktreeToTree(cfg *config.Config, fromTree, toTree *object.Tree, files []string) error {
+func (w *Worktree) resetWorktreeToTree(cfg *config.Config, fromTree, toTree *object.Tree, files []string, keepLocal bool) error {
 	filesMap := buildFilePathMap(files)
 
 	fs, closeFS := w.reusableRootFS()
@@ -836,12 +836,16 @@ func (w *Worktree) resetWorktreeToTree(cfg *config.Config, fromTree, toTree *obj
 	if err != nil {
 		return err
 	}
+	// With keepLocal (reset --keep) an existing file is rewritten only when its
+	// path differs between the two trees: local edits to any other file stay.
+	touched := make(map[string]struct{})
 	for _, ch := range treeChanges {
 		a, err := ch.Action()
 		if err != nil {
 			return err
 		}
 		if a != merkletrie.Delete {
+			touched[ch.To.String()] = struct{}{}
 			continue
 		}
 		name := ch.From.String()
@@ -894,6 +898,15 @@ func (w *Worktree) resetWorktreeToTree(cfg *config.Config, fromTree, toTree *obj
 		if len(files) > 0 {
 			file := ch.To.String()
 			if !inFiles(filesMap, file) {
+				continue
+			}
+		}
+
+		// A file that exists with other content and is not part of the
+		// switch carries a local edit: reset --keep leaves it alone. Files
+		// that are missing on disk are still written (sparse population).
+		if keepLocal && a == merkletrie.Modify {
+			if _, ok := touched[ch.To.String()]; !ok {
 				continue
 			}
 		}
